@@ -81,8 +81,37 @@ impl E2eGroup {
 
 pub const K: usize = 6;
 
+/// Parseable texts outside the screened corpus: on the pinned tree some detectors abort on them
+/// (that is another property's business). C13's oracle is purely differential, so they are welcome
+/// here: whatever a run over such a tree does, it must do the same under every schedule.
+pub const EXOTIC_TEXTS: &[&str] = &[
+    // no version pragma, but constructs the version-gated detectors look at
+    "contract NoPragma {\n    using SafeMath for uint256;\n    function f(uint256 a, uint256 b, bool c) public pure returns (uint256) {\n        require(c, \"this revert string is definitely longer than thirty two bytes\");\n        return a.add(b);\n    }\n}\n",
+    // a version range
+    "pragma solidity >=0.6.0 <0.9.0;\n\ncontract Range {\n    function g(bool c) public pure {\n        require(c, \"msg\");\n    }\n}\n",
+    // a free function and a library
+    "pragma solidity 0.8.16;\n\nfunction freeFn(uint256 a) pure returns (uint256) {\n    return a * 2;\n}\n\nlibrary L {\n    function h() internal {}\n}\n",
+    // last line not terminated: findings on line 0
+    "pragma solidity ^0.8.16;\ncontract Tail { function t(address a) public pure returns (bool) { return a == address(0); } }",
+    // only an interface
+    "pragma solidity 0.7.6;\n\ninterface I {\n    function x() external;\n}\n",
+];
+
 fn gen_e2e(rng: &mut Rng, screen: &mut Screen) -> E2eGroup {
-    let (base, _, _) = c03::gen_spec(rng, screen);
+    let (mut base, _, _) = c03::gen_spec(rng, screen);
+    if rng.chance(1, 5) {
+        let dirs: Vec<String> = base
+            .world
+            .dirs()
+            .into_iter()
+            .filter(|d| d == "/w/c" || d.starts_with("/w/c/"))
+            .collect();
+        for k in 0..rng.range(1, 2) {
+            let d = rng.pick(&dirs).clone();
+            let p = crate::world::join(&d, &format!("exotic{}.sol", k));
+            base.world.put_file(&p, rng.pick(EXOTIC_TEXTS).as_bytes().to_vec(), crate::world::Fault::None);
+        }
+    }
     let (dir, vul, opt, qa) = match &base.mode {
         Mode::Lib { dir, vul, opt, qa } => (dir.clone(), vul.clone(), opt.clone(), qa.clone()),
         _ => unreachable!(),
@@ -157,6 +186,7 @@ fn judge_e2e(g: &E2eGroup) -> GroupJudged {
         sample: None,
     };
     let mut first: Option<(Vec<u8>, crate::pats::Flat)> = None;
+    let mut first_aborted = false;
     for i in 0..g.variants.len() {
         let spec = g.spec(i);
         let out = run(&spec);
@@ -165,7 +195,31 @@ fn judge_e2e(g: &E2eGroup) -> GroupJudged {
         j.trace = mix(j.trace ^ journal_hash(&out.journal));
         j.distinct_decisions.push(c03::decision_hash(&out));
         if out.abort.is_some() {
+            if i > 0 && !j.aborted && first.is_some() {
+                j.violation = Some((
+                    "run_outcome_differs_between_schedules".into(),
+                    format!(
+                        "same tree, same selected patterns: the run under schedule #0 completes, the run under schedule #{} fails ({:?})",
+                        i, out.abort
+                    ),
+                ));
+                return j;
+            }
             j.aborted = true;
+            if i == 0 {
+                first_aborted = true;
+                continue;
+            }
+            continue;
+        }
+        if first_aborted {
+            j.violation = Some((
+                "run_outcome_differs_between_schedules".into(),
+                format!(
+                    "same tree, same selected patterns: the run under schedule #0 fails, the run under schedule #{} completes",
+                    i
+                ),
+            ));
             return j;
         }
         let findings = sorted(out.maps.flat());
